@@ -6,6 +6,7 @@ import (
 	"sort"
 	"strings"
 	"sync"
+	"time"
 
 	"google.golang.org/grpc/codes"
 
@@ -90,7 +91,13 @@ func convRun(w *World, coll bool) {
 	ns := 1 + t.Choose(2)
 	for i := 0; i < ns; i++ {
 		ctx, cancel := context.WithCancel(context.Background())
-		cw.subs = append(cw.subs, &subscriber{name: fmt.Sprintf("s%d", i), cfg: g.subCfg(true), ctx: ctx, cancel: cancel})
+		s := &subscriber{name: fmt.Sprintf("s%d", i), cfg: g.subCfg(true), ctx: ctx, cancel: cancel}
+		if t.Flag(1, 3) {
+			// a slow consumer (fake time only passes when nobody else can run): everything that can pile up in front
+			// of it does, so the merging / dropping stages of lossy subscriptions see long runs of events
+			s.lag, s.lagEvery = []time.Duration{100 * time.Millisecond, 500 * time.Millisecond, time.Second}[t.Choose(3)], t.Flag(1, 2)
+		}
+		cw.subs = append(cw.subs, s)
 	}
 	for _, wr := range cw.writers {
 		wr := wr
